@@ -90,6 +90,7 @@ pub struct RunStats {
     pub twin_same_compared: u64,
     pub twin_other_compared: u64,
     pub twin_fresh_thread_compared: u64,
+    pub twin_fresh_program_compared: u64,
     pub skipped_order_sensitive: u64,
     pub faults_planned: u64,
     pub faults_fired_in_comprehension: u64,
@@ -203,6 +204,8 @@ struct Shared<'w> {
     events: Mutex<Vec<String>>,
     /// results the main thread obtained in the prologue; threads bind clones of them in their scopes
     handoff: Vec<Value>,
+    /// programs come from imported ASTs (engine M): no parser available at run time
+    use_ast: bool,
     /// off in free-running mode (engine M): a mutex taken by every thread after every operation
     /// would order their memory accesses and hide data races from Miri's detector
     log_events: bool,
@@ -743,6 +746,28 @@ impl<'a, 'w> Runner<'a, 'w> {
                 self.violate("I5a-twin", idx, got.show(), outcome.show(), d);
                 return;
             }
+            // ... and so does a freshly compiled copy of the program ("executing a program never changes the
+            // program": if the long-lived Program object no longer behaves like a pristine compile of the
+            // same source, it was changed — state kept in the Program is shared by every context, so no
+            // twin *context* can reveal it)
+            if !sh.use_ast && mix(&[key, 0x9906]) % 4 == 0 {
+                if let Ok(Ok(fresh_program)) = catch_unwind(AssertUnwindSafe(|| Program::compile(&w.programs[prog].src))) {
+                    let mut got2: Option<Outcome> = None;
+                    self.with_twin(false, target, &mut |tw| {
+                        tls::begin_exec(key ^ 0x0051_7e00, fail_at);
+                        got2 = Some(execute(&fresh_program, tw));
+                        let _ = tls::end_exec();
+                    });
+                    self.stats.twin_fresh_program_compared += 1;
+                    if let Some(g) = got2 {
+                        if &g != outcome {
+                            let d = format!("{}: a freshly compiled copy of the same source, on a freshly built equal context, gives a different result than the long-lived program object", self.describe_op(idx));
+                            self.violate("I3-fresh-program", idx, g.show(), outcome.show(), d);
+                            return;
+                        }
+                    }
+                }
+            }
             // ... and so does a brand-new OS thread that has no history at all (per-thread state such as a
             // `thread_local!` memo is stable under immediate re-execution on the same thread, so only a
             // thread without a past can tell that the past mattered)
@@ -933,6 +958,7 @@ fn merge(into: &mut RunStats, from: &RunStats) {
     into.twin_same_compared += from.twin_same_compared;
     into.twin_other_compared += from.twin_other_compared;
     into.twin_fresh_thread_compared += from.twin_fresh_thread_compared;
+    into.twin_fresh_program_compared += from.twin_fresh_program_compared;
     into.skipped_order_sensitive += from.skipped_order_sensitive;
     into.faults_planned += from.faults_planned;
     into.outcomes_ok += from.outcomes_ok;
@@ -1023,6 +1049,7 @@ fn run_workload_inner(w: &Workload, opts: &RunOptions) -> RunResult {
         violation: Mutex::new(None),
         events: Mutex::new(Vec::new()),
         handoff,
+        use_ast: opts.use_ast,
         log_events: !opts.free_run,
     };
 
